@@ -23,6 +23,7 @@ type HRule struct {
 	Key      string           `json:"key,omitempty"`
 	T        int64            `json:"t"`
 	Specific map[string]int64 `json:"specific,omitempty"` // encoded value -> threshold
+	Cap      int64            `json:"cap,omitempty"`      // ParamsMaxCapacity (0 = default)
 }
 
 type Cfg struct {
@@ -30,6 +31,10 @@ type Cfg struct {
 	NRes   int     `json:"nres"`
 	Rules  []HRule `json:"rules"`
 	Conc   bool    `json:"concurrent,omitempty"`
+	// Reload: the history also loads, removes and modifies the rules while entries are in flight ("rl" ops);
+	// Late: no rule is loaded until the first "rl" op that adds one.
+	Reload bool `json:"reload,omitempty"`
+	Late   bool `json:"late,omitempty"`
 }
 
 type P struct{}
@@ -41,21 +46,32 @@ func (P) Engine() string { return "E1+E2" }
 
 func (P) Describe() harness.Description {
 	return harness.Description{
-		MustHit: []string{"value_readmitted_after_exit", "concurrent_rejections"},
+		MustHit: []string{"value_readmitted_after_exit", "concurrent_rejections", "rules_changed_with_entries_in_flight", "value_free_again_after_reloads", "few_counters_configured"},
 		Level:   "exploration",
 		Rule: "case = (1-2 resources, 1-2 hotspot concurrency rules per resource selecting the value by index, negative index or attachment key, thresholds 0-3 with specific-item tables; 10-60 ops: entries with argument lists / attachments over a small value alphabet (int, string, bool, float, struct), exits in any order, ticks; seeded pool reuse). " +
 			"E1: admit iff for every rule live(v) < T(v); blocked => hot-parameter block with that rule; after every op each per-value counter (read through an overlay accessor) == live entries of that value and every live entry's Input.Args is what its caller passed. " +
+			"Reload mode (30% of the sequential cases): rules are loaded late, removed, re-added, given another parameter position or threshold while entries are in flight (two figures per rule and value: since / upper, see execReload), then everything is exited and every request seen is decided by the thresholds alone. Few-counters mode: ParamsMaxCapacity 1-3 over a wide value alphabet. " +
 			"E2 (30%): 2-4 callers; per-value in-flight <= T+(k-1); counters all zero at quiescence. non-trivial = a value was blocked at its cap and admitted again after an exit while other values were in flight; distinct = hash(config, ops[, schedule])",
-		Assumptions: []string{"parameter capacity exceeds the number of live values (default capacity)", "per-value counters are read through the overlay-only accessor hotspot.VerifControllersFor (read-only)"},
+		Assumptions: []string{"entries admitted before a rule was loaded, re-added or given another parameter position may or may not count against it (both answers accepted while that is open; entries admitted under the rule as it is always count, and everything is exact again once they have left)", "per-value counters are read through the overlay-only accessor hotspot.VerifControllersFor (read-only)"},
 		Real:        []string{"api.Entry/Exit", "core/hotspot (slot, concurrency stat slot, traffic shaping controllers, LRU caches, rule manager)", "core/base context and option pools"},
 		Stub:        []string{"util.Clock (virtual clock)", "sync.Pool (SimPool, seeded)", "E2: goroutine scheduling"},
 	}
 }
 
 var alphabet = []string{"i:0", "i:1", "i:2", "s:a", "s:b", "b:true", "f:1.5", "st:1"}
+var wideAlphabet = []string{"i:0", "i:1", "i:2", "i:3", "i:4", "i:5", "i:6", "i:7", "s:a", "s:b", "s:c", "s:d", "b:true", "f:1.5", "st:1", "st:2"}
 
 func (P) Gen(rng *sim.Rng, tier string) *harness.Case {
 	cfg := Cfg{NRes: rng.Range(1, 2), Origin: 1700000000000 + rng.U64Range(0, 100000), Conc: rng.Chance(0.3)}
+	if !cfg.Conc && rng.Chance(0.3) {
+		cfg.Reload = true
+		cfg.Late = rng.Chance(0.4)
+	}
+	smallCap := !cfg.Conc && !cfg.Reload && rng.Chance(0.25) // few counters: a value in flight must keep its own
+	alpha := alphabet
+	if smallCap {
+		alpha = wideAlphabet
+	}
 	id := 0
 	for r := 0; r < cfg.NRes; r++ {
 		for k, nr := 0, rng.Range(1, 2); k < nr; k++ {
@@ -70,6 +86,12 @@ func (P) Gen(rng *sim.Rng, tier string) *harness.Case {
 				hr.Key = "k"
 			default:
 				hr.Index = 0
+			}
+			if smallCap {
+				hr.Cap = int64(rng.Range(1, 3))
+				if hr.T == 0 {
+					hr.T = 1
+				}
 			}
 			if rng.Chance(0.5) {
 				hr.Specific = map[string]int64{}
@@ -88,7 +110,7 @@ func (P) Gen(rng *sim.Rng, tier string) *harness.Case {
 			case 0:
 				var a []string
 				for j, m := 0, rng.Range(0, 3); j < m; j++ {
-					a = append(a, alphabet[rng.Intn(len(alphabet))])
+					a = append(a, alpha[rng.Intn(len(alpha))])
 				}
 				op := harness.Op{K: "entry", R: rng.Intn(cfg.NRes), A: a}
 				if rng.Chance(0.3) {
@@ -101,6 +123,11 @@ func (P) Gen(rng *sim.Rng, tier string) *harness.Case {
 					ops = append(ops, harness.Op{K: "exit", E: rng.Intn(entries)})
 				}
 			default:
+				if ticks && cfg.Reload && rng.Chance(0.6) {
+					// N: 0 add/remove a rule, 1 switch its parameter position, 2 change its threshold, 3 load the same rules again
+					ops = append(ops, harness.Op{K: "rl", N: uint64(rng.Weighted([]int{40, 25, 20, 15})), M: uint64(rng.Intn(4))})
+					break
+				}
 				if ticks {
 					if rng.Chance(0.25) {
 						// clock fault: the wall clock is stepped back while entries may be in flight
@@ -138,6 +165,9 @@ type mrule struct {
 	ptr      *hotspot.Rule
 	specific map[interface{}]int64
 	live     map[interface{}]int
+	// reload mode
+	loaded bool
+	epoch  int
 }
 
 func (r *mrule) threshold(v interface{}) int64 {
@@ -170,6 +200,12 @@ type ment struct {
 	args   []interface{}
 	attach map[interface{}]interface{}
 	live   bool
+	units  map[*mrule]unit // reload mode: the unit the entry took per rule in force when it was admitted
+}
+
+type unit struct {
+	v     interface{}
+	epoch int
 }
 
 func build(cfg *Cfg, o *harness.Outcome) [][]*mrule {
@@ -186,9 +222,15 @@ func build(cfg *Cfg, o *harness.Outcome) [][]*mrule {
 			spec[harness.DecodeArg(k)] = v
 		}
 		m.ptr = &hotspot.Rule{ID: r.ID, Resource: harness.ResName(r.Res), MetricType: hotspot.Concurrency, ControlBehavior: hotspot.Reject,
-			ParamIndex: r.Index, ParamKey: r.Key, Threshold: r.T, SpecificItems: spec}
+			ParamIndex: r.Index, ParamKey: r.Key, Threshold: r.T, SpecificItems: spec, ParamsMaxCapacity: r.Cap}
 		rules[r.Res] = append(rules[r.Res], m)
-		all = append(all, m.ptr)
+		m.loaded = !cfg.Late
+		if m.loaded {
+			all = append(all, m.ptr)
+		}
+		if r.Cap > 0 {
+			o.Probe("few_counters_configured")
+		}
 	}
 	harness.Call(o, "C06.panic", 0, func() {
 		if _, err := hotspot.LoadRules(all); err != nil {
@@ -245,6 +287,10 @@ func (P) Exec(c *harness.Case) *harness.Outcome {
 		return o
 	}
 	if len(c.Callers) == 0 {
+		return o
+	}
+	if cfg.Reload {
+		execReload(c, o, &cfg, rules, env)
 		return o
 	}
 	var ents []*ment
@@ -506,4 +552,235 @@ func execConc(c *harness.Case, o *harness.Outcome, cfg *Cfg, rules [][]*mrule, e
 		o.Nontrivial = true
 		o.Probe("concurrent_rejections")
 	}
+}
+
+// execReload: one caller; rules are loaded late, removed, re-added and modified while entries are in flight.
+// The property fixes what an entry occupies ("exactly one unit for the value it was admitted with", released
+// when it is exited) but not whether entries that were admitted before a rule (re)appeared count against it.
+// So per rule and value two figures are kept: since = live entries admitted under the rule as it is now,
+// upper = since + live entries of earlier epochs (or from before the rule) that carry the value under the old
+// or the new selection. A request must be blocked when since >= T, must be admitted when upper < T; in between
+// both answers are accepted. Without reloads the two figures coincide and the check is the exact one.
+func execReload(c *harness.Case, o *harness.Outcome, cfg *Cfg, rules [][]*mrule, env *harness.Env) {
+	var flat []*mrule
+	for _, rs := range rules {
+		flat = append(flat, rs...)
+	}
+	if len(flat) == 0 {
+		return
+	}
+	reload := func(step int) {
+		var all []*hotspot.Rule
+		for _, r := range flat {
+			if !r.loaded {
+				continue
+			}
+			spec := map[interface{}]int64{}
+			for k, v := range r.specific {
+				spec[k] = v
+			}
+			r.ptr = &hotspot.Rule{ID: r.ID, Resource: harness.ResName(r.Res), MetricType: hotspot.Concurrency, ControlBehavior: hotspot.Reject,
+				ParamIndex: r.Index, ParamKey: r.Key, Threshold: r.T, SpecificItems: spec, ParamsMaxCapacity: r.Cap}
+			all = append(all, r.ptr)
+		}
+		harness.Call(o, "C06.panic", step, func() {
+			if _, err := hotspot.LoadRules(all); err != nil {
+				o.Fail("C06.load-error", step, "%v", err)
+			}
+		})
+	}
+	var ents []*ment
+	figures := func(r *mrule, res int, v interface{}) (since, upper int) {
+		for _, m := range ents {
+			if m == nil || !m.live || m.res != res {
+				continue
+			}
+			u, has := m.units[r]
+			switch {
+			case has && u.epoch == r.epoch && u.v == v:
+				since++
+				upper++
+			case has && u.v == v:
+				upper++
+			default:
+				if cur := r.extract(m.args, m.attach); cur != nil && cur == v {
+					upper++
+				}
+			}
+		}
+		return
+	}
+	// decide returns (must block, may block, the rule that must block if it is unambiguous)
+	decide := func(res int, args []interface{}, attach map[interface{}]interface{}) (must, may bool, by *mrule) {
+		clean := true
+		for _, r := range rules[res] {
+			if !r.loaded {
+				continue
+			}
+			v := r.extract(args, attach)
+			if v == nil {
+				continue
+			}
+			since, upper := figures(r, res, v)
+			if int64(since) >= r.threshold(v) {
+				must = true
+				if clean && by == nil {
+					by = r
+				}
+			}
+			if int64(upper) >= r.threshold(v) {
+				may = true
+				if int64(since) < r.threshold(v) {
+					clean = false
+				}
+			}
+		}
+		return
+	}
+	request := func(step int, res int, a []string, at string) *ment {
+		m := &ment{res: res, args: harness.DecodeArgs(a), units: map[*mrule]unit{}}
+		if at != "" {
+			m.attach = map[interface{}]interface{}{"k": harness.DecodeArg(at)}
+		}
+		must, may, by := decide(res, m.args, m.attach)
+		var be *base.BlockError
+		harness.Call(o, "C06.panic", step, func() {
+			m.e, be = sentinel.Entry(harness.ResName(res), harness.EntryOpts(1, false, m.args, m.attach, nil)...)
+		})
+		if o.Failed() {
+			return nil
+		}
+		if (m.e == nil) == (be == nil) {
+			o.Fail("C06.outcome-shape", step, "Entry returned entry=%v blockErr=%v", m.e != nil, be != nil)
+			return nil
+		}
+		if must && be == nil {
+			o.Fail("C06.over-admission", step, "res-%d args %v: a value of this request already has its threshold of entries in flight that were admitted under the rule as it is now (rule %v), but the request was admitted", res, a, ruleID(by))
+			return nil
+		}
+		if !may && be != nil {
+			o.Fail("C06.spurious-rejection", step, "res-%d args %v attach %v rejected (%s) although for every rule fewer entries than its threshold carry the selected value, counting also those admitted before the rule was (re)loaded", res, a, at, be.BlockType())
+			return nil
+		}
+		if be != nil {
+			if be.BlockType() != base.BlockTypeHotSpotParamFlow {
+				o.Fail("C06.block-type", step, "blocked with %s", be.BlockType())
+				return nil
+			}
+			// (by content, not by ID: the manager keeps the controller of an earlier load for a rule with the same fields)
+			if tr, _ := be.TriggeredRule().(*hotspot.Rule); by != nil && (tr == nil || tr.ParamIndex != by.Index || tr.ParamKey != by.Key || tr.Threshold != by.T) {
+				o.Fail("C06.triggered-rule", step, "blocked by %v, reference says rule %s (index %d key %q threshold %d)", be.TriggeredRule(), by.ID, by.Index, by.Key, by.T)
+				return nil
+			}
+			if must != may {
+				o.Probe("decision_open_after_reload")
+			}
+			return m
+		}
+		m.live = true
+		for _, r := range rules[res] {
+			if r.loaded {
+				if v := r.extract(m.args, m.attach); v != nil {
+					m.units[r] = unit{v, r.epoch}
+				}
+			}
+		}
+		return m
+	}
+	for step, op := range c.Callers[0] {
+		switch op.K {
+		case "tick":
+			env.Clock.AdvanceMs(op.N)
+			o.SimMs += op.N
+		case "back":
+			if d := op.N * 1e6; d < env.Clock.NowNs() {
+				env.Clock.SetNs(env.Clock.NowNs() - d)
+				o.Fault("clock_stepped_back")
+			}
+		case "rl":
+			r := flat[int(op.M)%len(flat)]
+			liveNow := 0
+			for _, m := range ents {
+				if m != nil && m.live {
+					liveNow++
+				}
+			}
+			switch op.N {
+			case 0:
+				r.loaded = !r.loaded
+				if r.loaded {
+					r.epoch++
+				}
+			case 1:
+				if r.Key == "" && (r.Index == 0 || r.Index == 1) {
+					r.Index = 1 - r.Index
+					r.epoch++
+				}
+			case 2:
+				r.T = (r.T + 1) % 4
+				r.epoch++
+			}
+			if liveNow > 0 {
+				o.Probe("rules_changed_with_entries_in_flight")
+			}
+			reload(step)
+			if o.Failed() {
+				return
+			}
+		case "exit":
+			if op.E >= 0 && op.E < len(ents) && ents[op.E] != nil && ents[op.E].live {
+				m := ents[op.E]
+				harness.Call(o, "C06.panic", step, func() { m.e.Exit() })
+				m.live = false
+			}
+		case "entry":
+			if op.R < 0 || op.R >= cfg.NRes {
+				ents = append(ents, nil)
+				continue
+			}
+			m := request(step, op.R, op.A, op.S)
+			if o.Failed() {
+				return
+			}
+			ents = append(ents, m)
+		}
+	}
+	// drain; then nothing is in flight and every figure is exact again: each request seen is decided by the
+	// thresholds alone, and every value can be taken up to its threshold once more
+	end := len(c.Callers[0])
+	for _, m := range ents {
+		if m != nil && m.live {
+			harness.Call(o, "C06.panic", end, func() { m.e.Exit() })
+			m.live = false
+		}
+	}
+	seen := map[string]bool{}
+	for _, op := range c.Callers[0] {
+		if op.K != "entry" || op.R < 0 || op.R >= cfg.NRes {
+			continue
+		}
+		k := fmt.Sprintf("%d|%v|%s", op.R, op.A, op.S)
+		if seen[k] {
+			continue
+		}
+		seen[k] = true
+		m := request(end, op.R, op.A, op.S)
+		if o.Failed() {
+			return
+		}
+		if m != nil && m.live {
+			harness.Call(o, "C06.panic", end, func() { m.e.Exit() })
+			m.live = false
+			o.Probe("value_free_again_after_reloads")
+		}
+		ents = append(ents, m)
+	}
+	o.Nontrivial = true
+}
+
+func ruleID(r *mrule) string {
+	if r == nil {
+		return "?"
+	}
+	return r.ID
 }
